@@ -18,8 +18,9 @@ def spec_mass(text):
     m = 0.0
     for a, h in zip(mol.atoms, eh):
         m += pysmiles.PTE[a['element']]['AtomicMass']
-        nh = a['hcount'] if a.get('bracket') else h[0]
-        m += nh * pysmiles.PTE['H']['AtomicMass']
+        # CGsmiles completes the valence of every atom, bracket atoms included (C09): the hydrogen count written in
+        # a bracket atom is not taken literally
+        m += h[0] * pysmiles.PTE['H']['AtomicMass']
     return m
 
 
